@@ -6,7 +6,10 @@
            (Some id | None = raised); items = identifiers of the objects load_from_file delivered.
    CBig:   a big file, by lengths.  fsize/rsize/read_sizes = file size, read size, sizes of the chunks
            file.read delivered (tap); segs = per text chunk, the lengths of the pieces between newlines;
-           lens_out = lengths of the lines unframe emitted per chunk; n_items = number of objects delivered. *)
+           lens_out = lengths of the lines unframe emitted per chunk; n_items = number of objects delivered.
+           raw = None: the file object is the builtin buffered one (full chunks, then the rest);
+           raw = Some caps: the custom open_obj returned a raw stream whose k-th read call had at most
+           caps[k] bytes at hand (recorded by the stream itself, one entry per read call file.read made). *)
 From Coq Require Import List ZArith NArith Bool Arith.
 From RxVerif Require Import Base.Corr Framing.Line Container.Parquet Container.JsonLines.
 Import ListNotations.
@@ -16,8 +19,8 @@ Inductive c19case :=
 | CSmall (texts : list (list Z)) (objs : list N) (dump_out chunks : list (list Z))
          (lines_out : list (list (list Z))) (tbl : list (list Z * option N)) (skip : nat) (ignore : bool)
          (items : list N) (completed : bool)
-| CBig (fsize rsize : N) (read_sizes : list N) (segs lens_out : list (list N)) (skip : nat) (n_items : N)
-       (completed : bool).
+| CBig (fsize rsize : N) (raw : option (list N)) (read_sizes : list N) (segs lens_out : list (list N))
+       (skip : nat) (n_items : N) (completed : bool).
 
 Definition ns_eqb := list_eqb N.eqb.
 Definition count_nonzero (l : list N) : N := N.of_nat (length (filter (fun x => negb (x =? 0)%N) l)).
@@ -40,9 +43,17 @@ Definition c19_check (c : c19case) : bool :=
       zss_eqb (z_json_dump texts objs) dump_out
       && (if completed then list_eqb zss_eqb lines lines_out else zss_prefix (concat lines_out) (concat lines))
       && ns_eqb (fst r) items && Bool.eqb (snd r) completed
-  | CBig fsize rsize read_sizes segs lens_out skip n_items completed =>
+  | CBig fsize rsize raw read_sizes segs lens_out skip n_items completed =>
       let lens := len_run_timed 0 segs in
-      ns_eqb (map N.of_nat (batch_sizes (N.to_nat rsize) (N.to_nat fsize))) read_sizes
+      match raw with
+      | None => ns_eqb (map N.of_nat (batch_sizes (N.to_nat rsize) (N.to_nat fsize))) read_sizes
+      | Some caps =>
+          (* the chunks are what the stream delivered call by call; the loop made one more call (the empty
+             read) and by then the whole file had been delivered *)
+          ns_eqb (raw_sizes rsize caps fsize) read_sizes
+          && (N.of_nat (length caps) =? N.of_nat (length read_sizes) + 1)%N
+          && (fold_right N.add 0%N read_sizes =? fsize)%N
+      end
       && list_eqb ns_eqb lens lens_out
       && (count_nonzero (skipn skip (concat lens)) =? n_items)%N
       && completed
